@@ -105,8 +105,9 @@ def cases(draw):
                                                         "out_readonly_array"])), a=shared[0])
             else:
                 step_fail(b)
-            if b.stmts[-1]["k"] == "fail" and b.stmts[-1]["stmt"].get("target") == Lf:
-                b.stmts.pop()  # (L_final is read-only only in the model, see above)
+            tgt_ = b.stmts[-1]["stmt"].get("target") if b.stmts[-1]["k"] == "fail" else None
+            if tgt_ is not None and (tgt_ == Lf or (b.ref.env[tgt_].size > 0 and np.shares_memory(b.ref.env[tgt_], b.ref.env[Lf]))):
+                b.stmts.pop()  # (L_final's memory is read-only only in the model, see above)
         else:
             step_view(b)
     return {"prog": b.prog, "L": Lf, "endA": endA, "shared": shared}
